@@ -68,6 +68,10 @@ func (streamBytes) AsString() (string, error) {
 	return mixins.Bytes{TypeName: "bytes"}.AsString()
 }
 func (n streamBytes) AsBytes() ([]byte, error) {
+	// Always read from the start: an earlier read must not change what this one returns.
+	if _, err := n.Seek(0, io.SeekStart); err != nil {
+		return nil, err
+	}
 	return io.ReadAll(n)
 }
 func (streamBytes) AsLink() (datamodel.Link, error) {
@@ -77,5 +81,9 @@ func (streamBytes) Prototype() datamodel.NodePrototype {
 	return Prototype__Bytes{}
 }
 func (n streamBytes) AsLargeBytes() (io.ReadSeeker, error) {
+	// Hand the reader out positioned at the start, whatever was read before.
+	if _, err := n.Seek(0, io.SeekStart); err != nil {
+		return nil, err
+	}
 	return n.ReadSeeker, nil
 }
